@@ -5,6 +5,8 @@ package main
 // heights T-1, T, T+1 of existing time-outs.
 
 import (
+	"sort"
+
 	"fxverif/lib"
 )
 
@@ -19,11 +21,20 @@ var paramSets = [][4]uint64{
 	{90000, 5000, 30000, 3_700_000},
 }
 
+type genBatch struct {
+	token    int
+	timeout  uint64
+	executed bool
+}
+
 type Gen struct {
-	r      *lib.Rand
-	prop   string
-	motif  []Op // queued scripted operations
-	endBad bool // finish the history with an execution claim for a batch that does not exist
+	seen     map[uint64]*genBatch // every batch ever seen in the store
+	lastExec map[int]uint64       // token -> highest nonce whose execution was observed
+	maxH     uint64               // highest height of an observed event
+	r        *lib.Rand
+	prop     string
+	motif    []Op // queued scripted operations
+	endBad   bool // finish the history with an execution claim for a batch that does not exist
 }
 
 func (g *Gen) fee() int64 {
@@ -201,6 +212,9 @@ func (g *Gen) next0(s Snap, remaining int) Op {
 		}
 		return o
 	case 4:
+		if o, found := g.goneButExecutable(s); found && r.Chance(50) {
+			return o
+		}
 		if len(s.Batches) == 0 {
 			return Op{Kind: "Observe", H: g.heightNear(s)}
 		}
@@ -353,4 +367,57 @@ func (g *Gen) queueMotif(s Snap) {
 		g.motif = append(g.motif, Op{Kind: "IncreaseFee", ID: s.Ctr[0] + 1, Who: 0, Add: 0 + 5, Token: tok, Which: 1},
 			Op{Kind: "IncreaseFee", ID: s.Ctr[0] + 2, Who: 0, Add: 5, Token: tok, Which: 1})
 	}
+}
+
+// note is told every performed step: remembers batches and observed executions / heights
+func (g *Gen) note(op Op, ok bool, s Snap) {
+	if g.seen == nil {
+		g.seen, g.lastExec = map[uint64]*genBatch{}, map[int]uint64{}
+	}
+	for _, b := range s.Batches {
+		if _, known := g.seen[b.Nonce]; !known {
+			g.seen[b.Nonce] = &genBatch{token: b.Token, timeout: b.Timeout}
+		}
+	}
+	if ok && (op.Kind == "Observe" || op.Kind == "BatchExecuted" || op.Kind == "ObserveResult") {
+		if op.H > g.maxH {
+			g.maxH = op.H
+		}
+		if op.Kind == "BatchExecuted" {
+			if b := g.seen[op.Nonce]; b != nil && b.token == op.Token {
+				b.executed = true
+			}
+			if op.Nonce > g.lastExec[op.Token] {
+				g.lastExec[op.Token] = op.Nonce
+			}
+		}
+	}
+}
+
+// goneButExecutable: a batch that is no longer stored although the external contract would still execute it
+// (height below its time-out, nonce above the last executed one of its token, heights in order). On code where the
+// property holds there is none (theorem C06_no_double_spend_batch), so this never produces an operation there.
+func (g *Gen) goneButExecutable(s Snap) (Op, bool) {
+	h := g.maxH
+	if s.Ext > h {
+		h = s.Ext
+	}
+	var nonces []uint64
+	for n := range g.seen {
+		nonces = append(nonces, n)
+	}
+	sort.Slice(nonces, func(i, j int) bool { return nonces[i] < nonces[j] })
+	for _, n := range nonces {
+		b := g.seen[n]
+		live := false
+		for _, x := range s.Batches {
+			if x.Nonce == n {
+				live = true
+			}
+		}
+		if !live && !b.executed && h > 0 && h < b.timeout && n > g.lastExec[b.token] {
+			return Op{Kind: "BatchExecuted", Token: b.token, Nonce: n, H: h}, true
+		}
+	}
+	return Op{}, false
 }
